@@ -140,6 +140,16 @@ CHECKS = {
         "Traced types are shrink_types over the logged traces with rewriting disabled; stub text read by vf/oracle/stubeval.py.",
         "6 C13",
     ),
+    "C01": (
+        "exploration",
+        "runtime monitoring: call-boundary recorder in the driver + stub-text evaluator + conformance oracle over real `monkeytype run` -> SQLite -> `monkeytype stub` sessions",
+        "Generated target modules are driven with value-grammar call histories through the real CLI (in-process cli.main): one traced run per "
+        "max_typed_dict_size in {0,1,2,3,10}, then a stub for each of 7 rewriter configurations x {default, --ignore-existing-annotations, "
+        "--omit-existing-annotations, --disable-type-rewriting}; every value the driver recorded at a parameter, return or yield must be a "
+        "member of the annotation the stub text gives that position, evaluated with the stub's own names; stubs must parse and the commands succeed.",
+        "Driver recording via inspect.signature.bind is independent of the tracer; Iterator/Generator element types of argument values are unverifiable.",
+        "6 C01",
+    ),
 }
 
 PENDING = {}
